@@ -190,6 +190,14 @@ def build_input(case):
     rk = np.concatenate([np.zeros(before.sum(), int), np.ones(keep.sum(), int), np.full(after.sum(), 2)])
     order = np.lexsort((rk, sl))
     sl, rk = sl[order], rk[order]
+    if base.get("order") == "extras_last":     # the extra rows arrive below the regular ones (a correction export appended)
+        o2 = np.argsort(rk != 1, kind="stable")
+        sl, rk = sl[o2], rk[o2]
+    elif base.get("order") == "extras_first":  # ... or above them
+        o2 = np.argsort(rk == 1, kind="stable")
+        sl, rk = sl[o2], rk[o2]
+    elif base.get("order") == "reversed":      # newest first
+        sl, rk = sl[::-1].copy(), rk[::-1].copy()
     row_inst = inst[sl]
     row_vals = {c: np.where(rk == 1, orig[c][sl], extra[c][sl]) for c in cols}
     idx = pd.DatetimeIndex(row_inst.astype("datetime64[ns]")).tz_localize("UTC")
@@ -387,7 +395,7 @@ def dev_family(devs):
 def case_key(case):
     b = case["base"]
     return {"zone_class": ZONES[b["zone"]][0], "frame": "3d" if b["ndays"] < 4 else ">=4d",
-            "devs": dev_family(case.get("devs", []))}
+            "devs": dev_family(case.get("devs", [])), **({"row_order": b["order"]} if b.get("order") else {})}
 
 
 def run_case(case):
@@ -615,6 +623,12 @@ def cases(tier):
             B += _points(mkbase(*zv, 4, (6, 17)))
     for zv in (CHI_F, UTC):  # single-row first and last day
         B += _points(mkbase(*zv, 4, (23, 0)))
+    # rows not in time order: the extra row of a duplicate arrives below / above the regular rows, or the frame is newest-first
+    # ("first" is the first in the order supplied)
+    for zv in (CHI_F, KOL) if not thorough else (CHI_F, CHI_B, KOL, UTC, SYD_F):
+        for order in ("extras_last", "extras_first", "reversed"):
+            b = dict(mkbase(*zv, 4, (6, 17)), order=order)
+            B += [c for c in _points(b) if c["devs"][0][0] in ("dupA", "dupB") or (order == "reversed" and c["devs"][0][0] == "absent")]
     spaces.append(("B one point deviation at every hour, 3- and 4-day frames", B))
 
     # C. one NaN run at every hour of the short frames
